@@ -131,6 +131,15 @@ def run_stage(prop, stage, tier, rng, driver, res, known, extra_lines=None):
         return
     workdir = os.path.join(RUN, "%s-%s-%s-%d" % (prop["id"], tier, stage["name"], os.getpid()))
     os.makedirs(workdir, exist_ok=True)
+    # auxiliary binaries built from the tree (e.g. the real cmdline client) are handed to the harness through the environment
+    stage_env = dict(stage.get("env") or {})
+    try:
+        for var, tgt in (stage.get("aux_targets") or {}).items():
+            stage_env[var] = B.build(tgt)
+    except B.BuildError as e:
+        res.internal.append("auxiliary target does not build against the current tree: %s" % str(e)[-1500:])
+        return
+    stage_env["VERIF_SCRATCH"] = workdir
     ctx = {"tier": tier, "rng": rng.fork(stage["name"]), "root": ROOT, "scopes": res.exhaustive_scopes, "exe": exe,
            "workdir": workdir}
     if extra_lines is not None:
@@ -154,7 +163,7 @@ def run_stage(prop, stage, tier, rng, driver, res, known, extra_lines=None):
             f.write("\n".join(sh) + ("\n" if sh else ""))
         paths.append(p)
     with ThreadPoolExecutor(max_workers=nshards) as ex:
-        outs = list(ex.map(lambda ip: run_lines(exe, driver, ip[1], workdir, ip[0], env=stage.get("env")), enumerate(paths)))
+        outs = list(ex.map(lambda ip: run_lines(exe, driver, ip[1], workdir, ip[0], env=stage_env), enumerate(paths)))
     for (impl, ver, crashed), sh in zip(outs, shards):
         process(prop, stage, impl, ver, crashed, res, known, len(sh))
     res.stage_info.append({"stage": stage["name"], "harness": stage["target"], "sanitize": stage.get("sanitize", False),
